@@ -280,7 +280,7 @@ type VNilLit struct{}
 
 func coerceUntyped(v VInt, w int, signed bool) VInt {
 	if v.T.Sort.W == w {
-		return v
+		return VInt{T: v.T, Signed: signed}
 	}
 	if v.Untyped || v.T.Const {
 		return VInt{T: BVConst(w, v.T.V), Signed: signed}
@@ -685,27 +685,36 @@ func (env *Env) evalCall(n *ECall) Value {
 		nb := map[string]int{"LE16": 2, "LE32": 4, "LE64": 8}[n.Fn]
 		return VInt{T: leLoad(env.byteArr(s), off, nb), Signed: false}
 	case "zero":
-		// zero(s, lo, hi): all bytes of s[lo:hi) are 0
+		// zero(s, lo, hi): all bytes of s[lo:hi) are 0 (quantified over the absolute region index)
 		argn(3)
 		s := env.sliceArg(n.Args[0])
 		arr := env.byteArr(s)
-		lo, hi := env.idx64(n.Args[1]), env.idx64(n.Args[2])
-		return env.rangeForall(func(k T) T {
-			sel := Select(arr, BVBin("bvadd", s.Base, k))
+		lo, hi := BVBin("bvadd", s.Base, env.idx64(n.Args[1])), BVBin("bvadd", s.Base, env.idx64(n.Args[2]))
+		return env.rangeForall(func(j T) T {
+			sel := Select(arr, j)
 			return Eq(sel, BVConst(sel.Sort.W, 0))
-		}, lo, hi, func(k T) T { return Select(arr, BVBin("bvadd", s.Base, k)) })
+		}, lo, hi, func(j T) T { return Select(arr, j) })
 	case "eqbytes":
 		// eqbytes(a, alo, b, blo, n): a[alo+k]==b[blo+k] for 0<=k<n
 		argn(5)
 		a := env.sliceArg(n.Args[0])
-		alo := env.idx64(n.Args[1])
+		alo := BVBin("bvadd", a.Base, env.idx64(n.Args[1]))
 		b := env.sliceArg(n.Args[2])
-		blo := env.idx64(n.Args[3])
+		blo := BVBin("bvadd", b.Base, env.idx64(n.Args[3]))
 		cnt := env.idx64(n.Args[4])
 		aa, ba := env.byteArr(a), env.byteArr(b)
-		return env.rangeForall(func(k T) T {
-			return Eq(Select(aa, BVBin("bvadd", BVBin("bvadd", a.Base, alo), k)), Select(ba, BVBin("bvadd", BVBin("bvadd", b.Base, blo), k)))
-		}, i64(0), cnt, func(k T) T { return Select(aa, BVBin("bvadd", BVBin("bvadd", a.Base, alo), k)) })
+		// indexed by the absolute position in a
+		va := env.rangeForall(func(j T) T {
+			return Eq(Select(aa, j), Select(ba, BVBin("bvadd", blo, BVBin("bvsub", j, alo))))
+		}, alo, BVBin("bvadd", alo, cnt), func(j T) T { return Select(aa, j) })
+		if env.pos {
+			return va
+		}
+		// as an assumption also state it indexed by the absolute position in b
+		vb := env.rangeForall(func(j T) T {
+			return Eq(Select(ba, j), Select(aa, BVBin("bvadd", alo, BVBin("bvsub", j, blo))))
+		}, blo, BVBin("bvadd", blo, cnt), func(j T) T { return Select(ba, j) })
+		return VBool{And(va.(VBool).T, vb.(VBool).T)}
 	case "crc":
 		// crc(init, s, lo, hi) = crc32.Update(init, castagnoli, s[lo:hi])
 		argn(4)
@@ -731,12 +740,18 @@ func (env *Env) evalCall(n *ECall) Value {
 		if e.freshRegs[s.Reg] {
 			return VBool{True}
 		}
+		if !env.pos {
+			return VBool{e.fresh("fresh?", BoolSort)}
+		}
 		return VBool{False}
 	case "sameregion":
 		argn(2)
 		a, b := env.sliceArg(n.Args[0]), env.sliceArg(n.Args[1])
 		if a.Reg == b.Reg {
 			return VBool{True}
+		}
+		if !env.pos {
+			return VBool{e.fresh("sameregion?", BoolSort)}
 		}
 		return VBool{False}
 	case "iszero":
@@ -882,6 +897,27 @@ func (env *Env) havocTarget(a AssignTarget, tag string, pre *State) {
 			}
 			return
 		}
+		if x.Fn == "reslice" && len(x.Args) == 1 {
+			// the slice variable is re-sliced from the same start: same region
+			// and base, arbitrary len/cap
+			sel, ok := x.Args[0].(*ESel)
+			if !ok {
+				env.fail("reslice expects a field selector")
+			}
+			loc := env.locOf(sel)
+			if loc == nil {
+				env.fail("reslice: cannot resolve %s", a.Src)
+			}
+			cur, ok := e.load(env.st, loc, nil).(VSlice)
+			if !ok {
+				env.fail("reslice: %s is not a slice", a.Src)
+			}
+			ln := e.declare(fmt.Sprintf("%s?len~%s", loc.String(), tag), BV64)
+			cp := e.declare(fmt.Sprintf("%s?cap~%s", loc.String(), tag), BV64)
+			env.st.assume(And(BVCmp("bvsle", i64(0), ln), BVCmp("bvsle", ln, cp), BVCmp("bvslt", cp, i64(1<<maxLenBits))))
+			e.storeLoc(env.st, loc, VSlice{Nil: cur.Nil, Reg: cur.Reg, Base: cur.Base, Len: ln, Cap: cp, Elem: cur.Elem})
+			return
+		}
 		if x.Fn == "ghost" {
 			for _, ga := range x.Args {
 				if id, ok := ga.(*EIdent); ok {
@@ -908,6 +944,10 @@ func (env *Env) havocTarget(a AssignTarget, tag string, pre *State) {
 			for i := 0; i < stt.NumFields(); i++ {
 				if stt.Field(i).Name() == x.Name {
 					loc := b.Loc.field(i)
+					if at, ok := e.atomicType(vs.Typ, stt.Field(i)); ok {
+						e.storeLoc(env.st, loc, VIface{Nil: False, Dyn: at, Val: e.materialize(fmt.Sprintf("%s~%s.v", loc.String(), tag), at), Typ: stt.Field(i).Type()})
+						return
+					}
 					e.storeLoc(env.st, loc, e.materialize(fmt.Sprintf("%s~%s", loc.String(), tag), stt.Field(i).Type()))
 					return
 				}
